@@ -5,6 +5,7 @@ import (
 	_ "verif/h/checks/c01"
 	_ "verif/h/checks/c01t"
 	_ "verif/h/checks/c02"
+	_ "verif/h/checks/c03"
 	_ "verif/h/checks/c04"
 	_ "verif/h/checks/c09"
 	_ "verif/h/checks/c10"
